@@ -24,6 +24,9 @@ FINDINGS = [
     ('C17', 'register-output.json', 'C17|output|xml|register-values',
      {'property': 'C17', 'seed': 2, 'swarm': {'scrub': False, 'base': 'minimal', 'exec_ref': False, 'hashseed': 1},
       'ops': [job(['reg_parindent']), job(['probe_ifdim'])]}),
+    ('C17', 'beamer-state.json', 'C17|state|class-setting|plasTeX.Base.LaTeX.Lists:itemize.args',
+     {'property': 'C17', 'seed': 3, 'swarm': {'scrub': False, 'base': 'minimal', 'exec_ref': False, 'hashseed': 1},
+      'ops': [job(['textbf'], cls='beamer')]}),
 ]
 
 
